@@ -1108,4 +1108,184 @@ theorem atomic_prefix (fs : FS) (tmp : String) (hne : tmp ≠ FAVFILE) (chunks :
     generalize run fs pre = fs1 at hc
     simp [run, applyStep, hc, FS.set, Ne.symm hne]
 
+/-! ### overlapping savers -/
+
+theorem writeAt_end (d c : List Nat) : writeAt d d.length c = d ++ c := by
+  simp [writeAt]
+
+theorem renamed_name (f : String → Option Nat) (F t a : String) (ino x : Nat) :
+    setName (setName f F (some ino)) t none a = some x ↔
+      a ≠ t ∧ ((a = F ∧ x = ino) ∨ (a ≠ F ∧ f a = some x)) := by
+  by_cases e1 : a = t <;> by_cases e2 : a = F <;> simp [setName, e1, e2, eq_comm]
+
+/-- the names the savers and the readers care about. -/
+def InS (tmp : Nat → String) (a : String) : Prop := a = FAVFILE ∨ ∃ i, a = tmp i
+
+structure CInv (tmp : Nat → String) (chunks : Nat → List (List Nat)) (old : Option (List Nat)) (c : Conc) :
+    Prop where
+  /-- `.fav` and the temporary names are not hard links of one another -/
+  inj : ∀ a b x, InS tmp a → InS tmp b → c.w.names a = some x → c.w.names b = some x → a = b
+  fresh : ∀ a x, InS tmp a → c.w.names a = some x → x < c.w.next
+  /-- a saver in the middle of its writes owns the inode under its temporary name; it holds what was written -/
+  wr : ∀ i ino off rest, c.st i = .writing ino off rest →
+    c.w.names (tmp i) = some ino ∧ ∃ dn, chunks i = dn ++ rest ∧ c.w.data ino = dn.flatten ∧ off = dn.flatten.length
+  fav : c.w.read FAVFILE = old ∨ ∃ i, c.w.read FAVFILE = some (chunks i).flatten
+  fin : (∃ i, c.st i = .done) → ∃ j, c.w.read FAVFILE = some (chunks j).flatten
+
+theorem concStep_inv (tmp : Nat → String) (chunks : Nat → List (List Nat)) (old : Option (List Nat))
+    (htmp : ∀ i j, tmp i = tmp j → i = j) (hne : ∀ i, tmp i ≠ FAVFILE)
+    (c : Conc) (i : Nat) (h : CInv tmp chunks old c) : CInv tmp chunks old (concStep tmp chunks c i) := by
+  obtain ⟨hinj, hfresh, hwr, hfav, hfin⟩ := h
+  have hSi : InS tmp (tmp i) := Or.inr ⟨i, rfl⟩
+  have hSf : InS tmp FAVFILE := Or.inl rfl
+  unfold concStep
+  cases hst : c.st i with
+  | idle =>
+    simp only []
+    cases hn : c.w.names (tmp i) with
+    | some ino =>
+      simp only []
+      -- truncation of an existing temporary file
+      have hfavne : ∀ x, c.w.names FAVFILE = some x → x ≠ ino := by
+        intro x hx e; subst e
+        exact hne i (hinj _ _ _ hSi hSf hn hx)
+      have hreadfav : World.read { c.w with data := setData c.w.data ino [] } FAVFILE = c.w.read FAVFILE := by
+        simp only [World.read]
+        cases hf : c.w.names FAVFILE with
+        | none => rfl
+        | some x => simp [setData, hfavne x hf]
+      refine ⟨hinj, hfresh, ?_, by rw [hreadfav]; exact hfav, ?_⟩
+      · intro j ino' off rest hj
+        by_cases hji : j = i
+        · subst hji
+          simp [setSt] at hj
+          obtain ⟨rfl, rfl, rfl⟩ := hj
+          exact ⟨hn, [], by simp, by simp [setData], by simp⟩
+        · simp [setSt, hji] at hj
+          obtain ⟨hnj, dn, h1, h2, h3⟩ := hwr j ino' off rest hj
+          have hne' : ino' ≠ ino := by
+            intro e; subst e
+            exact hji (htmp _ _ (hinj _ _ _ (Or.inr ⟨j, rfl⟩) hSi hnj hn))
+          exact ⟨hnj, dn, h1, by simp [setData, hne', h2], h3⟩
+      · intro ⟨j, hj⟩
+        rw [hreadfav]
+        by_cases hji : j = i
+        · subst hji; simp [setSt] at hj
+        · simp [setSt, hji] at hj; exact hfin ⟨j, hj⟩
+    | none =>
+      simp only []
+      have hfavname : setName c.w.names (tmp i) (some c.w.next) FAVFILE = c.w.names FAVFILE := by
+        simp [setName, Ne.symm (hne i)]
+      have hreadfav : World.read (⟨setName c.w.names (tmp i) (some c.w.next),
+          setData c.w.data c.w.next [], c.w.next + 1⟩ : World) FAVFILE = c.w.read FAVFILE := by
+        simp only [World.read, hfavname]
+        cases hf : c.w.names FAVFILE with
+        | none => rfl
+        | some x =>
+          have := hfresh _ x hSf hf
+          simp [setData, Nat.ne_of_lt this]
+      refine ⟨?_, ?_, ?_, by rw [hreadfav]; exact hfav, ?_⟩
+      · intro a b x ha hb hxa hxb
+        simp only [setName] at hxa hxb
+        by_cases ea : a = tmp i <;> by_cases eb : b = tmp i
+        · rw [ea, eb]
+        · simp [ea, eb] at hxa hxb; subst hxa
+          exact absurd (hfresh _ _ hb hxb) (Nat.lt_irrefl _)
+        · simp [ea, eb] at hxa hxb; subst hxb
+          exact absurd (hfresh _ _ ha hxa) (Nat.lt_irrefl _)
+        · simp [ea, eb] at hxa hxb; exact hinj _ _ _ ha hb hxa hxb
+      · intro a x ha hxa
+        simp only [setName] at hxa
+        by_cases ea : a = tmp i
+        · simp [ea] at hxa; subst hxa; exact Nat.lt_succ_self _
+        · simp [ea] at hxa; exact Nat.lt_succ_of_lt (hfresh _ _ ha hxa)
+      · intro j ino' off rest hj
+        by_cases hji : j = i
+        · subst hji
+          simp [setSt] at hj
+          obtain ⟨rfl, rfl, rfl⟩ := hj
+          exact ⟨by simp [setName], [], by simp, by simp [setData], by simp⟩
+        · simp [setSt, hji] at hj
+          obtain ⟨hnj, dn, h1, h2, h3⟩ := hwr j ino' off rest hj
+          have hlt := hfresh _ _ (Or.inr ⟨j, rfl⟩) hnj
+          have hnn : tmp j ≠ tmp i := fun e => hji (htmp _ _ e)
+          exact ⟨by simp [setName, hnn, hnj], dn, h1, by simp [setData, Nat.ne_of_lt hlt, h2], h3⟩
+      · intro ⟨j, hj⟩
+        rw [hreadfav]
+        by_cases hji : j = i
+        · subst hji; simp [setSt] at hj
+        · simp [setSt, hji] at hj; exact hfin ⟨j, hj⟩
+  | writing ino off rest =>
+    obtain ⟨hn, dn, hch, hdata, hoff⟩ := hwr i ino off rest hst
+    have hfavne : ∀ x, c.w.names FAVFILE = some x → x ≠ ino := by
+      intro x hx e; subst e
+      exact hne i (hinj _ _ _ hSi hSf hn hx)
+    cases rest with
+    | cons ch rest' =>
+      simp only []
+      have hreadfav : World.read { c.w with data := setData c.w.data ino (writeAt (c.w.data ino) off ch) } FAVFILE
+          = c.w.read FAVFILE := by
+        simp only [World.read]
+        cases hf : c.w.names FAVFILE with
+        | none => rfl
+        | some x => simp [setData, hfavne x hf]
+      refine ⟨hinj, hfresh, ?_, by rw [hreadfav]; exact hfav, ?_⟩
+      · intro j ino' off' rest'' hj
+        by_cases hji : j = i
+        · subst hji
+          simp [setSt] at hj
+          obtain ⟨rfl, rfl, rfl⟩ := hj
+          refine ⟨hn, dn ++ [ch], by simp [hch], ?_, by simp [hoff]⟩
+          have e : setData c.w.data ino (writeAt (c.w.data ino) off ch) ino = writeAt (c.w.data ino) off ch := by
+            simp [setData]
+          show setData c.w.data ino (writeAt (c.w.data ino) off ch) ino = _
+          rw [e, hdata, hoff, writeAt_end]; simp
+        · simp [setSt, hji] at hj
+          obtain ⟨hnj, dn', h1, h2, h3⟩ := hwr j ino' off' rest'' hj
+          have hne' : ino' ≠ ino := by
+            intro e; subst e
+            exact hji (htmp _ _ (hinj _ _ _ (Or.inr ⟨j, rfl⟩) hSi hnj hn))
+          exact ⟨hnj, dn', h1, by simp [setData, hne', h2], h3⟩
+      · intro ⟨j, hj⟩
+        rw [hreadfav]
+        by_cases hji : j = i
+        · subst hji; simp [setSt] at hj
+        · simp [setSt, hji] at hj; exact hfin ⟨j, hj⟩
+    | nil =>
+      simp only [hn]
+      have hnew : World.read { c.w with names := setName (setName c.w.names FAVFILE (some ino)) (tmp i) none } FAVFILE
+          = some (chunks i).flatten := by
+        simp [World.read, setName, Ne.symm (hne i), hdata, hch]
+      refine ⟨?_, ?_, ?_, Or.inr ⟨i, hnew⟩, fun _ => ⟨i, hnew⟩⟩
+      · intro a b x ha hb hxa hxb
+        rcases (renamed_name _ _ _ _ _ _).mp hxa with ⟨ea, ⟨fa, xa⟩ | ⟨fa, na⟩⟩ <;>
+          rcases (renamed_name _ _ _ _ _ _).mp hxb with ⟨eb, ⟨fb, xb⟩ | ⟨fb, nb⟩⟩
+        · rw [fa, fb]
+        · subst xa; exact absurd (hinj _ _ _ hb hSi nb hn) eb
+        · subst xb; exact absurd (hinj _ _ _ ha hSi na hn) ea
+        · exact hinj _ _ _ ha hb na nb
+      · intro a x ha hxa
+        rcases (renamed_name _ _ _ _ _ _).mp hxa with ⟨ea, ⟨fa, xa⟩ | ⟨fa, na⟩⟩
+        · subst xa; exact hfresh _ _ hSi hn
+        · exact hfresh _ _ ha na
+      · intro j ino' off' rest'' hj
+        by_cases hji : j = i
+        · subst hji; simp [setSt] at hj
+        · simp [setSt, hji] at hj
+          obtain ⟨hnj, dn', h1, h2, h3⟩ := hwr j ino' off' rest'' hj
+          have hnn : tmp j ≠ tmp i := fun e => hji (htmp _ _ e)
+          exact ⟨by simp [setName, hnn, hne j, hnj], dn', h1, h2, h3⟩
+  | done => exact ⟨hinj, hfresh, hwr, hfav, hfin⟩
+
+theorem concRun_inv (tmp : Nat → String) (chunks : Nat → List (List Nat)) (old : Option (List Nat))
+    (htmp : ∀ i j, tmp i = tmp j → i = j) (hne : ∀ i, tmp i ≠ FAVFILE) :
+    ∀ (sched : List Nat) (c : Conc), CInv tmp chunks old c → CInv tmp chunks old (concRun tmp chunks c sched) := by
+  intro sched
+  induction sched with
+  | nil => intro c h; exact h
+  | cons i r ih =>
+    intro c h
+    simp only [concRun, List.foldl_cons]
+    exact ih _ (concStep_inv tmp chunks old htmp hne c i h)
+
 end PttVerif.C19
